@@ -10,7 +10,7 @@ from hv.common import hyp_collect, h
 ID = 'C08'
 LEVEL = 'exploration'
 EXHAUSTIVE = {}
-RULE = ('for message structures of every version (thorough: every usable structure; quick: a seeded sample) Hypothesis draws instances '
+RULE = ('for message structures of every version (thorough: every usable structure name in all its versions, visited in ascending and then descending version order inside one process; quick: 32 seeded structure names in all their versions) Hypothesis draws instances '
         'from the structure tables - modes required-only, all-children, random, repeated groups down to depth 3 - as a group tree that '
         'is then flattened into segment lines (conforming content, default or drawn delimiters). Oracle on parse_message(text, '
         'find_groups=True): (1) every group/segment is a declared child of the right kind of its parent, by the harness\'s own descent '
@@ -156,12 +156,16 @@ def _run(case, acc):
 
 
 def run_shard(shard, acc):
-    cells = [tuple(c) for c in shard['cells']]
-    if shard.get('sweep'):
-        for cell in cells:
-            hyp_collect(acc, cases([cell]), _run, shard['seed'], shard['n'], shard['shrink'])
-    else:
-        hyp_collect(acc, cases(cells), _run, shard['seed'], shard['n'], shard['shrink'])
+    # one process handles every version of a structure name, one version after the other (ascending, then descending):
+    # a result that depends on what was parsed before is a determinism violation and only shows up that way
+    by_name = {}
+    for v, m in message_cells():
+        by_name.setdefault(m, []).append(v)
+    for name in shard['names']:
+        vs = sorted(by_name[name], key=T.vkey)
+        order = vs + vs[::-1][1:] if shard.get('both_orders') else (vs if shard['seed'] % 2 else vs[::-1])
+        for k, v in enumerate(order):
+            hyp_collect(acc, cases([(v, name)]), _run, shard['seed'] + k, shard['n'], shard['shrink'])
     n = len([k for k in acc.extra if k.startswith('struct:')])
     for k in [k for k in acc.extra if k.startswith('struct:')]:
         del acc.extra[k]
@@ -173,10 +177,11 @@ def message_cells():
 
 
 def plan(tier, seed):
-    cells = message_cells()
     import random
+    names = sorted(set(m for v, m in message_cells()))
     rnd = random.Random(seed)
     if tier == 'quick':
-        sample = rnd.sample(cells, 320)
-        return [{'cells': sample[i::16], 'seed': seed * 1000 + i, 'n': 60, 'shrink': False} for i in range(16)]
-    return [{'cells': cells[i::64], 'seed': seed * 1000 + i, 'n': 8, 'shrink': True, 'sweep': True} for i in range(64)]
+        sample = rnd.sample(names, 32)
+        return [{'names': sample[i::16], 'seed': seed * 1000 + i, 'n': 4, 'shrink': False} for i in range(16)]
+    rnd.shuffle(names)
+    return [{'names': names[i::64], 'seed': seed * 1000 + i, 'n': 8, 'shrink': True, 'both_orders': True} for i in range(64)]
